@@ -24,9 +24,12 @@ TBind ==
          \* implementation-shaped layer: the transcription of the resolver macros predicts another candidate (or does not know the entry)
          off == {x \in b : TIdx(x[1]) = {} \/ (TIdx(x[1]) # {} /\ Predicted(x[1], cfg) # x[3])}
      IN Adv(   Chk(Consistent(cfg), "SPEC", "inconsistent-configuration-generated", l, << e.cfg >>)
-            \o Chk(bad = {}, "C12", "binding-needs-unavailable-instructions", l,
-                   << e.cfg, {<< x[1], x[2], FamilyRequires(x[3]) \ (Avail(cfg) \cup Untested \cup Baseline(x[4])) >> : x \in {y \in bad : y[3] \in KnownFamilies}},
-                      {<< x[1], x[2] >> : x \in {y \in bad : y[3] \notin KnownFamilies}} >>)
+            \o Chk({y \in bad : y[3] \in KnownFamilies} = {}, "C12", "binding-needs-unavailable-instructions", l,
+                   << e.cfg, {<< x[1], x[2], FamilyRequires(x[3]) \ (Avail(cfg) \cup Untested \cup Baseline(x[4])) >> : x \in {y \in bad : y[3] \in KnownFamilies}} >>)
+            \* the target's name must be <entry>_<family>: anything else is code written for another entry point (another key
+            \* size, the raw-key twin of an expanded-key entry, ...) or not a library symbol at all
+            \o Chk({y \in bad : y[3] \notin KnownFamilies} = {}, "C12", "bound-to-code-of-another-entry-point", l,
+                   << e.cfg, {<< x[1], x[2] >> : x \in {y \in bad : y[3] \notin KnownFamilies}} >>)
             \o Chk(badg = {}, "C12", "shared-object-bound-to-different-families", l,
                    << e.cfg, {<< x[1], x[3] >> : x \in {y \in b : \E g \in badg : y[1] \in g}} >>)
             \o Chk(off = {}, "DRIFT", "ladder-model-predicts-another-candidate", l,
